@@ -22,7 +22,7 @@ OnClass(e) ==
 OnValid(e) == FlagAll(IF e.ok /\ e.std_ok /\ e.same_as_std THEN {} ELSE {<<l, "nottransparent">>})
 ONext == /\ l <= Len(Trace) /\ l' = l + 1
          /\ LET e == Trace[l] IN
-            IF e.ev = "Utf8" /\ e.built THEN (IF e.kind = "path" THEN OnPath(e) ELSE IF e.kind = "valid" THEN OnValid(e) ELSE OnClass(e))
+            IF e.ev = "Utf8" /\ e.built THEN (IF e.kind \in {"path", "all"} THEN OnPath(e) ELSE IF e.kind = "valid" THEN OnValid(e) ELSE OnClass(e))
                                            ELSE TRUE
 OSpec == l = 1 /\ [][ONext]_l
 Report == PrintT(<<"OBS_VIOLATIONS", TLCGet(1)>>) /\ PrintT(<<"OBS_TRACE_LEN", Len(Trace)>>)
